@@ -17,14 +17,16 @@ mkdir -p bin evidence replays
 # changes without touching /repo); evidence then goes to a scratch directory, never to evidence/
 MODFLAG=""
 out="bin/$id.test"
+export VERIF_RACE_BIN="$VERIF_DIR/bin/race.test"
 if [ -n "$VERIF_REPO" ]; then
   tag=$(echo "$VERIF_REPO" | md5sum | cut -c1-8)
   sed "s|=> /repo|=> $VERIF_REPO|" go.mod > "bin/alt-$tag.mod"; cp go.sum "bin/alt-$tag.sum"
   MODFLAG="-modfile=bin/alt-$tag.mod"
   out="bin/alt-$tag-$id.test"
+  export VERIF_RACE_BIN="$VERIF_DIR/bin/alt-$tag-race.test"
   export VERIF_EVIDENCE_DIR="$VERIF_DIR/bin/alt-$tag-evidence"; mkdir -p "$VERIF_EVIDENCE_DIR"
 fi
-case "$id" in C07|C20) go test $MODFLAG -race -tags verif -vet=off -c -o bin/race.test ./checks/race >bin/race.build.log 2>&1 || { echo "ENGINE-ERROR race build failed:"; cat bin/race.build.log; exit 2; } ;; esac
+case "$id" in C07|C20) go test $MODFLAG -race -tags verif -vet=off -c -o "$VERIF_RACE_BIN" ./checks/race >bin/race.build.log 2>&1 || { echo "ENGINE-ERROR race build failed:"; cat bin/race.build.log; exit 2; } ;; esac
 case "$id" in C14|C16) go build -o bin/fakessh ./cmd/fakessh || { echo "ENGINE-ERROR building fakessh"; exit 2; } ;; esac
 go test $MODFLAG -c -tags verif -vet=off -o "$out" "$pkg" >bin/$id.build.log 2>&1 || { echo "ENGINE-ERROR build failed:"; cat bin/$id.build.log; exit 2; }
 VERIF_TIER="$tier" exec "./$out" -test.run '^TestCheck$' -test.timeout=0
